@@ -249,8 +249,17 @@ def run(R, tier):
         R.anchor_lost("R09.5", "ResponseData for &[u8]")
     else:
         texts = [b"", b"abc", b'"', b'""', b'a"b', b'"a', b'a"', b'a"b"c', b'""a""', b"it's", b"a,b;c\n", b"#H10"]
+        refused = [b"\xff", b"a\x80b", b'"\xe9']
+        if tier == "thorough":
+            import itertools
+            for n_ in range(1, 5):
+                for w_ in itertools.product(b'"a ,\xff', repeat=n_):
+                    w_ = bytes(w_)
+                    (refused if any(c_ >= 128 for c_ in w_) else texts).append(w_)
+            texts = sorted(set(texts))
+            refused = sorted(set(refused))
         cases = [(repr(t), E.sl(t), [b'"' + t.replace(b'"', b'""') + b'"']) for t in texts]
-        cases += [(repr(t), E.sl(t), ("refuse", "ExecutionError")) for t in (b"\xff", b"a\x80b", b'"\xe9')]
+        cases += [(repr(t), E.sl(t), ("refuse", "ExecutionError")) for t in refused]
         table("R09.5", "&[u8]", bs[0], cases, "'\"' text with every '\"' doubled '\"'; non-ASCII text refused with -200 before any output")
 
     # R09.6 error-queue item
